@@ -463,6 +463,8 @@ class Interp:
             return Fn("lib", name="identity")  # a read-only view of the same mapping
         if fq.startswith("numpy.") or fq.startswith("math.") or fq.startswith("datetime.") or fq.startswith("dateutil.") or fq.startswith("posixpath."):
             return Fn("lib", name=fq)
+        if root in ("operator", "copy", "itertools", "json") and "." in fq:
+            return Fn("lib", name=fq)  # a function of the module, not a sub-module
         if root in ("numpy", "math", "datetime", "operator", "copy", "itertools", "re", "dateutil", "posixpath", "json", "fsspec"):
             return ModuleRef(ext=fq)
         return Fn("lib", name=fq)
@@ -650,7 +652,10 @@ class Interp:
             return Top("chained compare")
         l = self.eval(e.left, sc)
         r = self.eval(e.comparators[0], sc)
-        op = e.ops[0]
+        return self.compare(e.ops[0], l, r)
+
+    def compare(self, op, l, r):
+        """one comparison on model values (also what operator.eq & co. compute)"""
         if isinstance(op, (ast.In, ast.NotIn)):
             res = self.contains(r, l)
             if res is None:
@@ -1418,12 +1423,24 @@ class Interp:
             # yield run on entry, the rest on exit (inside `try: yield / finally:` also when the body raises; otherwise only
             # when it does not)
             fi, gsc, pre, post, guarded, yielded = self._contextmanager_call(st.items[0].context_expr, sc)
+            handlers = getattr(self, "_cm_handlers", [])
             self.exec_block(pre, gsc, [])
             if st.items[0].optional_vars is not None:
                 self.bind(st.items[0].optional_vars, self.eval(yielded, gsc) if yielded is not None else Const(None), sc)
             if guarded:
                 try:
-                    self.exec_block(st.body, sc, yields)
+                    try:
+                        self.exec_block(st.body, sc, yields)
+                    except _Raise as ex:
+                        # the exception is thrown into the generator at its yield: a matching handler there runs (and may raise
+                        # something else); when it ends without raising, the with statement suppresses the exception
+                        h = self.matching_handler(handlers, ex, gsc) if handlers else None
+                        if h is None:
+                            raise
+                        if h.name:
+                            val = getattr(ex, "value", None)
+                            gsc.vars[h.name] = val if isinstance(val, Obj) else Obj("Exception", OrderedDict(args=TupS([Const(ex.what)]), classes=Const(ex.classes)))
+                        self.exec_block(h.body, gsc, [])
                 finally:
                     self.exec_block(post, gsc, [])
             else:
@@ -1818,13 +1835,36 @@ class Interp:
 
         def is_yield(s_):
             return isinstance(s_, ast.Expr) and isinstance(s_.value, ast.Yield)
-        idx = [i for i, s_ in enumerate(body) if is_yield(s_) or (isinstance(s_, ast.Try) and len(s_.body) == 1 and is_yield(s_.body[0]) and not s_.handlers and not s_.orelse)]
+        def is_with_yield(s_):
+            return isinstance(s_, ast.With) and len(s_.items) == 1 and len(s_.body) == 1 and is_yield(s_.body[0])
+        idx = [i for i, s_ in enumerate(body) if is_yield(s_) or is_with_yield(s_) or (isinstance(s_, ast.Try) and len(s_.body) == 1 and is_yield(s_.body[0]) and not s_.orelse)]
         n_yields = sum(1 for n_ in ast.walk(fnode) if isinstance(n_, (ast.Yield, ast.YieldFrom)))
         if len(idx) != 1 or n_yields != 1:
-            raise ShapeError(f"context manager {f.func.qualname}: not of the form <setup>; yield; <teardown> (or try: yield / finally: <teardown>)")
+            raise ShapeError(f"context manager {f.func.qualname}: not of the form <setup>; yield; <teardown> (or try: yield / except / finally, or with <cm> as x: yield x)")
         i = idx[0]
         st_y = body[i]
+        self._cm_handlers = []
+        if is_with_yield(st_y):
+            # `with X as v: yield v`: entering X is the setup, leaving it the (guaranteed) teardown
+            item = st_y.items[0]
+            cm_name = "__cm_of_with__"
+            setup = [ast.Assign(targets=[ast.Name(id=cm_name, ctx=ast.Store())], value=item.context_expr)]
+            enter = ast.Call(func=ast.Attribute(value=ast.Name(id=cm_name, ctx=ast.Load()), attr="__enter__", ctx=ast.Load()), args=[], keywords=[])
+            if item.optional_vars is not None:
+                setup.append(ast.Assign(targets=[item.optional_vars], value=enter))
+            else:
+                setup.append(ast.Expr(value=enter))
+            leave = ast.Expr(value=ast.Call(func=ast.Attribute(value=ast.Name(id=cm_name, ctx=ast.Load()), attr="__exit__", ctx=ast.Load()), args=[ast.Constant(None), ast.Constant(None), ast.Constant(None)], keywords=[]))
+            for n_ in setup + [leave]:
+                ast.copy_location(n_, st_y)
+                ast.fix_missing_locations(n_)
+            args, kwargs = self._elts(e.args, sc), OrderedDict((k.arg, self.eval(k.value, sc)) for k in e.keywords if k.arg)
+            gsc = self.module_scope(f.func.module).child(owner=f.func)
+            self.bind_params(fnode.args, args, kwargs, gsc, f.func.qualname)
+            return f.func, gsc, body[:i] + setup, [leave] + body[i + 1:], True, st_y.body[0].value.value
         guarded = isinstance(st_y, ast.Try)
+        if guarded:
+            self._cm_handlers = list(st_y.handlers)
         yexpr = (st_y.body[0] if guarded else st_y).value.value
         post = (list(st_y.finalbody) if guarded else []) + body[i + 1:]
         args, kwargs = self._elts(e.args, sc), OrderedDict((k.arg, self.eval(k.value, sc)) for k in e.keywords if k.arg)
